@@ -117,6 +117,7 @@ def check_c01(run):
     run.selftest()
     run_parse_families(run, c01_families(run), keys="std")
     run_traces(run, salt=1, parse_only=95)
+    run_scan(run, salt=1)
     run.assumptions += ["IDNA mapping of non-ASCII / xn-- labels is taken as given (behaviours needing it are skipped in E-mode and inferred from the log in T-mode)",
                         "bounded: every string over each family alphabet up to the stated length; longer inputs only through recorded random traces"]
     return run.finish("model_checking", "every string over a family alphabet (the characters the parser states branch on) up to the family bound, "
@@ -140,6 +141,29 @@ def run_traces(run, n_quick=3000, n_thorough=50000, salt=0, maxlen=90, parse_onl
     if len(run.samples) < 12:
         run.samples.append("[T-mode] %d events recorded from seeded random drivers on the real code (WPT-corpus mutation, raw bytes, histories over parse/resolve/setters/"
                            "SearchParams/clone on 3 handles) and validated by TLC against UrlApi.tla, state adopted from the log after every event" % n)
+
+
+def run_scan(run, explore_quick=1000000, keep_quick=30000, explore_thorough=12000000, keep_thorough=400000, setter_pct=0, salt=0, parser=None):
+    """Novelty scan (T-mode front end): the driver explores a token-generated space of calls on the real code and records one representative
+    of each of the rarest behaviour classes; TLC validates every recorded event exactly (Trace_Api.tla) - verdicts come from TLC only."""
+    q = run.tier == "quick"
+    explore, keep = (explore_quick, keep_quick) if q else (explore_thorough, keep_thorough)
+    rounds = 1 if q else 4
+    for i in range(rounds):
+        bad, nev = run.record_and_validate(0, seed_salt=700 + salt * 10 + i, scan=(explore // rounds, keep // rounds, setter_pct), parser=parser)
+        mine = []
+        for ev, verdicts in bad:
+            vs = [v for v in verdicts if run.prop in v.split(":")[0] or v == "crash"]
+            if vs:
+                mine.append((dict(ev, k="trace", **{"in": ev.get("a", [])}), vs))
+        absorb_events(run, mine, "novelty-scan")
+        other = {}
+        for ev, verdicts in bad:
+            for v in verdicts:
+                if not (run.prop in v.split(":")[0] or v == "crash"):
+                    other[v[:80]] = other.get(v[:80], 0) + 1
+        if other:
+            run.families[-1]["verdicts_about_other_properties"] = other
 
 
 def run_api_families(run, fams, keys="all", spmodes="late,early", params=True, workers=None):
